@@ -471,7 +471,7 @@ Section NoFuel.
     Lemma pop_spec s :
       pop_cleanup s = mkOut (Ok None) s wnil \/
       exists id c rest, cleanups (ts s) = (id, c) :: rest /\
-        pop_cleanup s = mkOut (Ok (Some c)) (with_ts s (mkT (failed (ts s)) rest (ctx (ts s)) true (skipreq (ts s)))) (wev [URun id] false false).
+        pop_cleanup s = mkOut (Ok (Some c)) (with_ts s (mkT (failed (ts s)) rest (ctx (ts s)) true (skipreq (ts s)) (ood (ts s)))) (wev [URun id] false false).
     Proof.
       unfold pop_cleanup. destruct (cleanups (ts s)) as [|[id c] rest]; [left; reflexivity|].
       destruct (cleaning (ts s)); [right; eauto|left; reflexivity].
@@ -481,7 +481,7 @@ Section NoFuel.
       (res o = Err XFuel -> (0 < k -> Qne) /\ (LF <= nrun (tr (w o)) \/ k <= nrun (tr (w o)))) /\
       (exists l', src (post o) = SBuf l' /\ length l' <= length l) /\ SI (ts (post o)).
 
-    (* the steps between two cleanup functions (mark_dirty, note_skip): they succeed, log nothing, and keep the
+    (* the steps between two cleanup functions (mark_dirty, note_skip, note_ood): they succeed, log nothing, and keep the
        source and the cleanup stack *)
     Definition same_sc (s2 s1 : st) : Prop := src s2 = src s1 /\ cleanups (ts s2) = cleanups (ts s1).
     Definition quiet (pre : M unit) : Prop :=
@@ -491,6 +491,8 @@ Section NoFuel.
     Lemma quiet_mark_dirty : quiet mark_dirty.
     Proof. intros st. repeat split. Qed.
     Lemma quiet_note_skip m : quiet (note_skip m).
+    Proof. intros st. repeat split. Qed.
+    Lemma quiet_note_ood m : quiet (note_ood m).
     Proof. intros st. repeat split. Qed.
     Lemma quiet_dirty_if (b : bool) : quiet (if b then mark_dirty else ret tt).
     Proof. destruct b; [apply quiet_mark_dirty|apply quiet_ret]. Qed.
@@ -546,8 +548,10 @@ Section NoFuel.
             (lazymatch goal with |- cl_at _ _ (mkOut (res ?o) _ _) => apply (G o) end).
           * left. apply K0.
           * left. destruct (inner && internal_msg m).
-            { apply cl_pre; [apply quiet_mark_dirty|]. apply K.
-              destruct (quiet_mark_dirty (post (crun c s'))) as (_ & _ & A). exact A. }
+            { apply cl_pre; [apply quiet_mark_dirty|]. apply cl_pre; [apply quiet_note_ood|]. apply K.
+              destruct (quiet_mark_dirty (post (crun c s'))) as (_ & _ & [A1 A2]).
+              destruct (quiet_note_ood m (post (mark_dirty (post (crun c s'))))) as (_ & _ & [B1 B2]).
+              split; [rewrite B1; exact A1|rewrite B2; exact A2]. }
             apply cl_pre; [apply quiet_dirty_if|]. apply cl_pre; [apply quiet_note_skip|]. apply K.
             destruct (quiet_dirty_if (internal_msg m) (post (crun c s'))) as (_ & _ & [A1 A2]).
             destruct (quiet_note_skip m (post ((if internal_msg m then mark_dirty else ret tt) (post (crun c s')))))
@@ -572,7 +576,8 @@ Section NoFuel.
         destruct (res (crun c _)) as [v|[m|m st|m st|]]; cbv beta iota zeta in H.
         + eapply IH; [|exact H]. exact Hlast.
         + destruct (inner && internal_msg m).
-          * rewrite pre_res in H by apply quiet_mark_dirty. eapply IH; [|exact H]. discriminate.
+          * rewrite pre_res in H by apply quiet_mark_dirty. rewrite pre_res in H by apply quiet_note_ood.
+            eapply IH; [|exact H]. exact Hlast.
           * rewrite pre_res in H by apply quiet_dirty_if. rewrite pre_res in H by apply quiet_note_skip.
             eapply IH; [|exact H]. exact Hlast.
         + eapply IH; [|exact H]. discriminate.
@@ -622,10 +627,13 @@ Section NoFuel.
                    c <- cleanup LF crun true ;;
                    t0 <- get_ts ;;
                    match c, r with
-                   | Some (XInvalid m), _ => match failed t0 with Some _ => throw (XInvalid m) | None => ret None end
+                   | None, Ok v =>
+                       match ood t0 with
+                       | Some m => match failed t0 with Some _ => throw (XInvalid m) | None => ret None end
+                       | None => ret (Some v)
+                       end
                    | Some e, Err (XInvalid m) => _ <- (if internal_msg m then mark_dirty else ret tt) ;; throw e
                    | Some e, _ => throw e
-                   | None, Ok v => ret (Some v)
                    | None, Err (XInvalid m) => match failed t0 with Some _ => throw (XInvalid m) | None => ret None end
                    | None, Err e => throw e
                    end)).
@@ -635,14 +643,9 @@ Section NoFuel.
         { intros e ->. ap NF_throw. intros _ ->. apply Hc. reflexivity. }
         assert (Hr' : forall e, r = Err e -> NFb SI R2 b (@throw (option val) e)).
         { intros e ->. ap NF_throw. intros Hb ->. apply (Hr Hb). reflexivity. }
-        assert (Hinv : forall m, c = Some (XInvalid m) ->
-                  NFb SI R2 b (match failed t0 with Some _ => @throw (option val) (XInvalid m) | None => ret None end)).
-        { intros m Ec. destruct (failed t0); [exact (Hth _ Ec)|nf]. }
-        destruct c as [e|]; [destruct e as [m'|m' st'|m' st'|]; [exact (Hinv m' eq_refl)| | |]|]; destruct r as [v|e']; auto.
+        destruct c as [e|]; destruct r as [v|e']; auto.
         - destruct e'; auto. ap NF_bind; [destruct (internal_msg m); nf|intros _; auto].
-        - destruct e'; auto. ap NF_bind; [destruct (internal_msg m); nf|intros _; auto].
-        - destruct e'; auto. ap NF_bind; [destruct (internal_msg m); nf|intros _; auto].
-        - nf.
+        - destruct (ood t0); [destruct (failed t0)|]; nf.
         - destruct e'; auto. destruct (failed t0); auto. nf. }
       destruct r as [v|[]]; first [exact H | ap NF_throw; intros Hb; destruct (Hr Hb eq_refl)].
     Qed.
@@ -662,7 +665,7 @@ Section NoFuel.
       Variable Pre : tstate -> Prop.
       Variable R : tstate -> tstate -> Prop.
       Context {HR : RelOK Pre R}.
-      Hypothesis R_reg : forall t id f, Q f -> R t (mkT (failed t) ((id, f) :: cleanups t) (ctx t) (cleaning t) (skipreq t)).
+      Hypothesis R_reg : forall t id f, Q f -> R t (mkT (failed t) ((id, f) :: cleanups t) (ctx t) (cleaning t) (skipreq t) (ood t)).
       Hypothesis R_SI : forall t t', R t t' -> SI t -> SI t'.
       Hypothesis Pre_SI : forall t, SI t -> Pre t.
 
